@@ -663,3 +663,166 @@ func leadsToReject(cmp *ssa.BinOp, l *natLoop) bool {
 	}
 	return false
 }
+
+// condElemsBelowLastParam is the side condition of reviewed entries that rely
+// on "every element the function puts into the byte slices it hands out is
+// smaller than its last integer parameter" (FDSelect: every font-dictionary
+// index is below the number of private dictionaries).  Two ways of filling
+// are recognised and each is proven: (1) append(s, v): the prover shows
+// v < limit at the append; (2) a slice made with length n and filled by a
+// read call: a loop whose counter runs from 0 to that same n tests s[i] and,
+// on the edge that stays in the loop, the prover shows s[i] < limit.
+func condElemsBelowLastParam(w *World, br *boundsRun, name string) func() (bool, string) {
+	return func() (bool, string) {
+		fn := w.Func(name)
+		if fn == nil {
+			return false, name + " does not resolve"
+		}
+		var limit *ssa.Parameter
+		for _, prm := range fn.Params {
+			if isIntType(prm.Type()) {
+				limit = prm
+			}
+		}
+		if limit == nil {
+			return false, name + " has no integer parameter"
+		}
+		p := br.prover(fn)
+		lim := p.linOf(limit)
+		isByteSlice := func(t types.Type) bool { return bIsByteSlice(t.Underlying()) }
+		nApp, nBulk := 0, 0
+		for _, b := range fn.Blocks {
+			for _, in := range b.Instrs {
+				switch x := in.(type) {
+				case *ssa.Call:
+					bi, ok := x.Call.Value.(*ssa.Builtin)
+					if !ok || bi.Name() != "append" || len(x.Call.Args) != 2 || !isByteSlice(x.Call.Args[0].Type()) {
+						continue
+					}
+					// the appended value: append(s, v) is append(s, tmp[:]...) with *tmp[0] = v
+					var v ssa.Value
+					if sl, ok := x.Call.Args[1].(*ssa.Slice); ok {
+						if al, ok := sl.X.(*ssa.Alloc); ok && al.Referrers() != nil {
+							for _, ref := range *al.Referrers() {
+								if ia, ok := ref.(*ssa.IndexAddr); ok && ia.Referrers() != nil {
+									for _, r2 := range *ia.Referrers() {
+										if st, ok := r2.(*ssa.Store); ok {
+											v = st.Val
+										}
+									}
+								}
+							}
+						}
+					}
+					if v == nil {
+						return false, w.Pos(x.Pos()) + ": append of several bytes at once: the elements are not followed"
+					}
+					nApp++
+					d, ok1 := lim.sub(p.linOf(v))
+					if !ok1 || !p.proveAt(b, d.addc(-1)) {
+						return false, w.Pos(x.Pos()) + ": the value appended here is not shown to be below " + limit.Name() + " (the range test is missing or too weak)"
+					}
+				case *ssa.MakeSlice:
+					if !isByteSlice(x.Type()) {
+						continue
+					}
+					nBulk++
+					// a checking loop over 0..len
+					okLoop := false
+					for _, l := range naturalLoops(fn) {
+						for bb := range l.body {
+							for _, in2 := range bb.Instrs {
+								ld, ok := in2.(*ssa.UnOp)
+								if !ok || ld.Op != token.MUL {
+									continue
+								}
+								ia, ok := ld.X.(*ssa.IndexAddr)
+								if !ok || !isSliceValue(ia.X, x) {
+									continue
+								}
+								ctr, ok := ia.Index.(*ssa.Phi)
+								if !ok || ctr.Block() != l.head {
+									continue
+								}
+								fromZero := true
+								for i, e := range ctr.Edges {
+									if l.body[l.head.Preds[i]] {
+										continue
+									}
+									if c, isC := bconstInt(e); !isC || c != 0 {
+										fromZero = false
+									}
+								}
+								if !fromZero {
+									continue
+								}
+								// the loop runs while ctr < n for the n of the make
+								runsAll := false
+								if ifi, ok := l.head.Instrs[len(l.head.Instrs)-1].(*ssa.If); ok {
+									if cmp, ok := ifi.Cond.(*ssa.BinOp); ok && cmp.Op == token.LSS && cmp.X == ssa.Value(ctr) {
+										if dd, ok := p.linOf(cmp.Y).sub(p.linOf(x.Len)); ok && dd.isConst() && dd.k == 0 {
+											runsAll = true
+										}
+										if c, ok := cmp.Y.(*ssa.Call); ok {
+											if bi, ok := c.Call.Value.(*ssa.Builtin); ok && bi.Name() == "len" && isSliceValue(c.Call.Args[0], x) {
+												runsAll = true
+											}
+										}
+									}
+								}
+								if !runsAll {
+									continue
+								}
+								// on every back edge the element is below the limit
+								all := true
+								for _, latch := range l.latches {
+									d, ok1 := lim.sub(p.linOf(ld))
+									if !ok1 || !p.prove(p.edgeFacts(latch, l.head), d.addc(-1), latch, 2) {
+										all = false
+									}
+								}
+								if all {
+									okLoop = true
+								}
+							}
+						}
+					}
+					if !okLoop {
+						return false, w.Pos(x.Pos()) + ": the byte slice made here is handed out without a loop over all its elements that rejects values >= " + limit.Name()
+					}
+				}
+			}
+		}
+		if nApp == 0 && nBulk == 0 {
+			return false, "no byte slice is filled in " + name
+		}
+		return true, ""
+	}
+}
+
+// isSliceValue: v is the made slice x itself, or a load of a variable cell
+// whose only store puts x there (a variable captured by a closure).
+func isSliceValue(v ssa.Value, x *ssa.MakeSlice) bool {
+	if v == ssa.Value(x) {
+		return true
+	}
+	ld, ok := v.(*ssa.UnOp)
+	if !ok || ld.Op != token.MUL {
+		return false
+	}
+	cell, ok := ld.X.(*ssa.Alloc)
+	if !ok || cell.Referrers() == nil {
+		return false
+	}
+	n := 0
+	match := false
+	for _, ref := range *cell.Referrers() {
+		if st, ok := ref.(*ssa.Store); ok && st.Addr == ssa.Value(cell) {
+			n++
+			if st.Val == ssa.Value(x) {
+				match = true
+			}
+		}
+	}
+	return n == 1 && match
+}
